@@ -146,6 +146,58 @@ func famRuns(size int, r *rng, f func([]byte, Event)) {
 	}
 }
 
+// (h) extremal words: every group selects one of the longest / shortest words of the language (by UTF-8 bytes
+// and by code points): the longest and shortest sentences the encoder can emit
+var famExtremalLang int
+
+func famExtremal(size int, r *rng, f func([]byte, Event)) {
+	words := goldenWords[famExtremalLang]
+	type wl struct{ ix, bytes, runes int }
+	var ws []wl
+	for i, w := range words {
+		ws = append(ws, wl{i, len(w), len([]rune(w))})
+	}
+	pick := map[int]bool{}
+	for pass := 0; pass < 4; pass++ {
+		best := 0
+		for i := range ws {
+			a, b := ws[i], ws[best]
+			var better bool
+			switch pass {
+			case 0:
+				better = a.bytes > b.bytes
+			case 1:
+				better = a.bytes < b.bytes
+			case 2:
+				better = a.runes > b.runes
+			case 3:
+				better = a.runes < b.runes
+			}
+			if better {
+				best = i
+			}
+		}
+		pick[ws[best].ix] = true
+	}
+	for ix := range pick {
+		bits := make([]byte, 8*size)
+		for g := 0; g*11 < len(bits); g++ {
+			setGroup(bits, g, ix)
+		}
+		f(bitsToBytes(bits), Event{"fam": "extremal", "k": ix})
+		// and mixed with a second extremal word
+		for jx := range pick {
+			if jx != ix {
+				for g := 0; g*11 < len(bits); g += 2 {
+					setGroup(bits, g, jx)
+				}
+				f(bitsToBytes(bits), Event{"fam": "extremal", "k": ix*2048 + jx})
+				break
+			}
+		}
+	}
+}
+
 func famRandom(count int) func(int, *rng, func([]byte, Event)) {
 	return func(size int, r *rng, f func([]byte, Event)) {
 		for k := 0; k < count; k++ {
@@ -192,7 +244,7 @@ func famCover(size int, r *rng, f func([]byte, Event)) {
 func runEncode(tier string, seed int64, which map[string]bool, langsFor func(fam string, size int, r *rng) []int, check bool) {
 	fams := []encFam{{"latin", famLatin}, {"last", famLast}, {"hash", famHash}, {"runs", famRuns},
 		{"random", famRandom(map[string]int{"quick": 100, "thorough": 2000}[tier])},
-		{"flips", famFlips(map[string]int{"quick": 2, "thorough": 10}[tier])}, {"cover", famCover}}
+		{"flips", famFlips(map[string]int{"quick": 2, "thorough": 10}[tier])}, {"cover", famCover}, {"extremal", famExtremal}}
 	for _, fm := range fams {
 		if !which[fm.name] {
 			continue
@@ -201,6 +253,7 @@ func runEncode(tier string, seed int64, which map[string]bool, langsFor func(fam
 			lr := newRng(seed, "langs/"+fm.name)
 			for _, lang := range langsFor(fm.name, size, lr) {
 				r := newRng(seed, fm.name+"/"+string(rune('a'+size))+"/"+string(rune('a'+lang)))
+				famExtremalLang = lang
 				fm.gen(size, r, func(ent []byte, tag Event) {
 					maybeCut()
 					out, err := recByEntropy(ent, int64(lang), tag)
